@@ -28,7 +28,7 @@ PROPS = {
     "C03": dict(quick_checks=12000, thorough_checks=100000, enum=True, fuzz=["FuzzC03JSON", "FuzzC03CBOR", "FuzzC03UBJSON"]),
     "C04": dict(quick_checks=8000, enum=True),
     "C05": dict(quick_checks=8000, enum=True, fuzz=["FuzzC05"]),
-    "C06": dict(quick_checks=8000, fuzz=["FuzzC06"]),
+    "C06": dict(quick_checks=8000, enum=True, fuzz=["FuzzC06"]),
     "C07": dict(quick_checks=8000, enum=True),
     "C08": dict(quick_checks=2500, thorough_checks=20000),
     "C09": dict(quick_checks=4000, thorough_checks=30000, enum=True),
